@@ -61,4 +61,10 @@ CHECKS = {
   "text": "For every group of every conformation and of the average the reported pKa must equal model pKa + both desolvation terms + the sum of all listed determinants (1e-9; bridged cysteines exactly 99.99), for generated single- and multi-conformation structures under {none, -i, -c, -d} and parameter files that toggle remove_penalised_group / shared_determinants / common_charge_centre; the written file is parsed by columns and must list exactly the expected groups, with table pKa == summary pKa == a correct rounding of the API value, matching desolvation columns and counts, row k of column t equal to the k-th determinant of type t, padding elsewhere.",
   "note": "Trusts vlib/pkaparse.py and the ordering rule (chains x write_out_order) re-implemented in the check. Fixed findings F6 and F12 are regression cases (F12 witness: 3SGB with shared_determinants 1, remove_penalised_group 0).",
  },
+ "C08": {
+  "level": "exploration",
+  "technique": "property-based testing (Hypothesis) over generated multi-conformation inputs against (i) an atom-set model of topping-up and (ii) an independent recomputation of the mean from the per-conformation records",
+  "text": "Generated MODEL / alternate-location inputs (2-4 conformations, letters and digits as tags, partial and whole-residue alternates, point mutants in any conformation, missing atoms/residues, identical models, single conformation): every conformation must keep its atoms, gain the atoms it lacks from conformations with the same residue type at that position and never hold two residue types at one position; the average must hold exactly one group per site occurring anywhere, with pKa, desolvation, buried, counts and per-partner determinant sums equal to the arithmetic mean over the conformations that contain the group; single conformation == average; identical models == single model.",
+  "note": "Per-conformation records are taken as ground truth (checked by C01/C02). Groups bridged in only some conformations are not compared. Fixed findings F6 (divisor / missing groups) and F13 (shadowed donor atoms) are regression cases.",
+ },
 }
